@@ -137,6 +137,26 @@ class _Life:
         self.dev = d
         world = World(d, "hid" if plat == "ledger" else "tcp")
         install(world)
+        if p["newpin_answer"] == "cut":
+            # the transfer of the new PIN is cut short by a time-out before the device is told to take it: one of
+            # the PIN bytes sent after the unlock (Ledger), the command itself never reaching the device (SGX)
+            d.newpin_answer = "ack"
+            import zlib
+            cut = {"k": zlib.crc32(p["seed"].encode()) % 9, "n": 0, "after_unlock": False}
+
+            def cut_hook(w, apdu, idx):
+                cls = bringup.classify(apdu)
+                if cls == "unlock":
+                    cut["after_unlock"] = True
+                    return None
+                if plat == "sgx":
+                    return ("timeout_before",) if cls == "change_pin" else None
+                if cls == "pin_byte" and cut["after_unlock"]:
+                    cut["n"] += 1
+                    if cut["n"] == cut["k"] + 1:
+                        return ("timeout",)
+                return None
+            world.fault_hook = cut_hook
         import ledger.pin as lpin
         lpin.open = self.open
         self.emit({"k": "start", "force": bool(p["force"])})
